@@ -235,3 +235,10 @@ Theorem T06v_check_partition_spec : forall n,
   (forall m x, In m (nl_list n) -> In x (nn_alts m) -> ~ In x (nl_alone n)).
 Proof. exact check_partition_spec. Qed.
 Print Assumptions T06v_check_partition_spec.
+
+Example T06v_example :
+  nests_init [1; 2; 3]%Z [[1; 2]%Z] = Ok [3]%Z /\
+  check_partition (mkNL [1; 2; 3]%Z [mkNN (PN d_one) [1; 2]%Z] [3]%Z) = true /\
+  check_partition (mkNL [1; 2; 3]%Z [mkNN (PN d_one) [1; 2]%Z; mkNN (PN d_one) [2; 3]%Z] []) = false /\
+  nests_init [1; 2]%Z [[1; 7]%Z] = Err 1%Z.
+Proof. repeat split; vm_compute; reflexivity. Qed.
